@@ -93,11 +93,11 @@ pub enum Op {
     ResizeWith(usize),
     PopIf,
     DedupByKey,
-    /// `splice(start..end, ids)`, `pulls` × `next()`, drop of the `Splice`; the last field caps the lower
+    /// `splice(start..end, ids)`, then `next` (`f`) / `next_back` (`b`) per script (`Splice` is double-ended), drop of the `Splice`; the last field caps the lower
     /// bound `replace_with.size_hint()` reports (large: exact; small: the `collected` fallback of `Splice::drop` runs)
     /// The very last field: a LYING source — `size_hint().0` is that number whatever is left (over-reporting up
     /// to values whose reservation ends in the "capacity overflow" panic).
-    Splice(usize, usize, Vec<u64>, usize, usize, Option<usize>),
+    Splice(usize, usize, Vec<u64>, Vec<u8>, usize, Option<usize>),
     /// `BumpVec::shrink_to(min_capacity)`
     ShrinkTo(usize),
     /// `Extend::extend(iter)`: source ids, cap of the honest lower bound, the lie (see `Splice`)
@@ -179,8 +179,8 @@ impl Op {
             Op::ExtendIter(ids, h, Some(l)) => format!(" src={} hint={h} lie={l} maxcap={}", csv(ids), isize::MAX as usize / std::mem::size_of::<E>()),
             Op::Alt(1, inner) => format!("{} via=try", inner.args()),
             Op::Alt(_, inner) => inner.args(),
-            Op::Splice(a, b, ids, k, h, None) => format!(" {a} {b} src={} pulls={k} hint={h}", csv(ids)),
-            Op::Splice(a, b, ids, k, h, Some(l)) => format!(" {a} {b} src={} pulls={k} hint={h} lie={l} maxcap={}", csv(ids), isize::MAX as usize / std::mem::size_of::<E>()),
+            Op::Splice(a, b, ids, k, h, None) => format!(" {a} {b} src={} pulls={} hint={h}", csv(ids), script_text(k)),
+            Op::Splice(a, b, ids, k, h, Some(l)) => format!(" {a} {b} src={} pulls={} hint={h} lie={l} maxcap={}", csv(ids), script_text(k), isize::MAX as usize / std::mem::size_of::<E>()),
         }
     }
     /// does the operation need spare capacity / is it unavailable on `BumpBox<[T]>`?
@@ -427,8 +427,9 @@ pub fn std_apply(v: &mut Vec<u64>, op: &Op, o: &[Oc]) -> Result<(String, usize),
             let ys = RefCell::new(Vec::new());
             let r = catch_unwind(AssertUnwindSafe(|| {
                 let mut sp = v.splice(*a..*b, Hinted { inner: ids.clone().into_iter(), cap: *hint, lie: *lie });
-                for _ in 0..*pulls {
-                    ys.borrow_mut().push(sp.next().map_or("none".to_string(), |x| x.to_string()));
+                for c in pulls {
+                    let y = if *c == b'f' { sp.next() } else { sp.next_back() };
+                    ys.borrow_mut().push(y.map_or("none".to_string(), |x| x.to_string()));
                 }
             }));
             let ys = ys.into_inner();
@@ -793,8 +794,8 @@ macro_rules! impl_extra {
                         let src: Vec<T> = ids.iter().map(|i| T::make(*i)).collect();
                         let mut sp = self.splice(form_range(*a, *b, self.len()), Hinted { inner: src.into_iter(), cap: *hint, lie: *lie });
                         let mut ys = Vec::new();
-                        for _ in 0..*pulls {
-                            ys.push(match sp.next() {
+                        for c in pulls {
+                            ys.push(match if *c == b'f' { sp.next() } else { sp.next_back() } {
                                 None => "none".to_string(),
                                 Some(e) => val_text(e),
                             });
